@@ -12,11 +12,11 @@
 //!   1 csv import   2 json import   3 export of a real table   4 DataIO writers on a hand-made QueryResult
 //!   5 `\copy` line parsing   6 RFC 4180 oracle vs specification   (7 = statements of 1/2/4 re-read by the parser)
 #![allow(dead_code)]
-#[path = "/repo/crates/vibesql-cli/src/commands.rs"]
+#[path = "/tmp/c31mut/src/commands.rs"]
 mod commands;
-#[path = "/repo/crates/vibesql-cli/src/data_io.rs"]
+#[path = "/tmp/c31mut/src/data_io.rs"]
 mod data_io;
-#[path = "/repo/crates/vibesql-cli/src/executor/mod.rs"]
+#[path = "/tmp/c31mut/src/executor/mod.rs"]
 mod executor;
 mod formatter {
     #[derive(Debug, Clone, Copy)]
